@@ -26,7 +26,7 @@ from mc.core.explore import Shard, violation
 
 PROPERTY = "C20"
 RULE = (
-    "full product of 32 option sets x 20 queries x 14 documents run in-process through cli.main(); "
+    "full product of 32 option sets x 25 queries x 14 documents run in-process through cli.main(); "
     "expected outcome computed from find() (success) or from the input class (failure); 48 cases "
     "replayed through real subprocesses and compared byte for byte with the in-process "
     "observation; distinct by construction; non-trivial = cases whose expected outcome is a failure "
@@ -44,6 +44,8 @@ QUERIES = [
     ("index", "$[9007199254740992]"), ("overflow", "$[?@ == 1e400]"), ("syntax", "$[?@ == 'a\x01']"),
     # invalid queries that contain line breaks: the diagnostic must still be one line
     ("syntax", "$['a\nb']"), ("syntax", '$[?@.v == "x\ny"]'), ("syntax", "$\n[\n"), ("syntax", "$.a\r\n b"),
+    # blank space around an inline query is part of the query (invalid); a file's is stripped
+    ("padded", " $.a"), ("padded", "$.a "), ("padded", "$.a\n"), ("padded", "\t$..a"), ("padded", "$.a\u00a0"),
     ("type", "$[?count(\n1\n) == 1]"), ("name", "$[?\nnosuch(@.a)\n]"), ("valid", "$\n.a"),
 ]
 
@@ -86,7 +88,12 @@ def option_sets():
 
 def expected(qclass, query, dclass, docbytes, opts):
     """-> ("ok", output text) | ("fail",)"""
-    if qclass != "valid":
+    # an inline query is taken verbatim; the content of a query file is stripped of surrounding
+    # blank space (files end with a newline) - nothing else may be altered
+    if opts["qfile"]:
+        query = query.strip()
+    c = impl.run(impl.jp.compile, query)
+    if c[0] != "ok":
         return ("fail",)
     if dclass in ("badjson", "badbytes"):
         return ("fail",)
